@@ -749,6 +749,236 @@ theorem enc_iff_tree (src dst : Fin m → Fin n) (act : Fin n → Prop) [Decidab
 
 end C04T
 
+
+namespace C06
+/-
+Single cycle (`_active_edges_single_cycle`, rank/root encoding).  Schema posted by the function, for a loop-free
+multigraph with active edges `act`:  passed(v), rank(v) in [0, n-1], is_root(v);
+  for every vertex i:   #{active e at i} = 2 if passed i else 0
+                        passed i -> #{active e at i : rank(other end) >= rank(i)} <= (2 if is_root i else 1)
+  exactly one root.
+Theorem: satisfiable exactly when every vertex meets 0 or 2 active edges and any two visited vertices are joined by a
+walk along active edges (the active edges are empty or form exactly one simple cycle); then passed = visited.
+-/
+
+variable {n m : ℕ}
+
+/-- active edges at vertex i -/
+def inc (src dst : Fin m → Fin n) (act : Fin m → Prop) [DecidablePred act] (i : Fin n) : Finset (Fin m) :=
+  univ.filter (fun e => act e ∧ (src e = i ∨ dst e = i))
+
+/-- joined by an active edge -/
+def adjA (src dst : Fin m → Fin n) (act : Fin m → Prop) (i j : Fin n) : Prop :=
+  ∃ e, act e ∧ ((src e = i ∧ dst e = j) ∨ (src e = j ∧ dst e = i))
+
+def visited (src dst : Fin m → Fin n) (act : Fin m → Prop) [DecidablePred act] (i : Fin n) : Prop :=
+  (inc src dst act i).card = 2
+
+def OneCycle (src dst : Fin m → Fin n) (act : Fin m → Prop) [DecidablePred act] : Prop :=
+  (∀ i, (inc src dst act i).card = 0 ∨ (inc src dst act i).card = 2) ∧
+    C04.Connected (adjA src dst act) (visited src dst act)
+
+/-- active edges at i whose other end does not have a smaller rank -/
+def geq (src dst : Fin m → Fin n) (act : Fin m → Prop) [DecidablePred act] (rank : Fin n → ℕ) (i : Fin n) : Finset (Fin m) :=
+  (inc src dst act i).filter (fun e => rank i ≤ rank (C09.other src dst e i))
+
+def Enc (src dst : Fin m → Fin n) (act : Fin m → Prop) [DecidablePred act] : Prop :=
+  ∃ (passed : Fin n → Prop) (rank : Fin n → ℕ) (isRoot : Fin n → Prop) (_ : DecidablePred passed) (_ : DecidablePred isRoot),
+    (∀ v, rank v < n) ∧
+    (∀ i, (inc src dst act i).card = if passed i then 2 else 0) ∧
+    (∀ i, passed i → (geq src dst act rank i).card ≤ if isRoot i then 2 else 1) ∧
+    (∃ r, isRoot r ∧ ∀ r', isRoot r' → r' = r)
+
+theorem adjA_symm (src dst : Fin m → Fin n) (act : Fin m → Prop) : ∀ x y, adjA src dst act x y → adjA src dst act y x := by
+  rintro x y ⟨e, ha, h | h⟩
+  · exact ⟨e, ha, Or.inr h⟩
+  · exact ⟨e, ha, Or.inl h⟩
+
+theorem other_ne (src dst : Fin m → Fin n) (hloop : ∀ e, src e ≠ dst e) (e : Fin m) (i : Fin n)
+    (h : src e = i ∨ dst e = i) : C09.other src dst e i ≠ i := by
+  unfold C09.other
+  split_ifs with h1
+  · intro h2; exact hloop e (h1.trans h2.symm)
+  · intro h2; exact h1 h2
+
+theorem other_at (src dst : Fin m → Fin n) (e : Fin m) (i : Fin n) (h : src e = i ∨ dst e = i) :
+    src e = C09.other src dst e i ∨ dst e = C09.other src dst e i := by
+  unfold C09.other
+  split_ifs with h1
+  · exact Or.inr rfl
+  · exact Or.inl rfl
+
+theorem adjA_other (src dst : Fin m → Fin n) (act : Fin m → Prop) (e : Fin m) (i : Fin n) (ha : act e)
+    (h : src e = i ∨ dst e = i) : adjA src dst act i (C09.other src dst e i) := by
+  unfold C09.other
+  split_ifs with h1
+  · exact ⟨e, ha, Or.inl ⟨h1, rfl⟩⟩
+  · rcases h with h | h
+    · exact absurd h h1
+    · exact ⟨e, ha, Or.inr ⟨rfl, h⟩⟩
+
+end C06
+
+namespace C06
+
+variable {n m : ℕ}
+
+open Classical in
+/-- soundness: the minimum-rank vertex of every component of the active edges must be the root -/
+theorem enc_onecycle (src dst : Fin m → Fin n) (act : Fin m → Prop) [DecidablePred act]
+    (h : Enc src dst act) : OneCycle src dst act := by
+  obtain ⟨passed, rank, isRoot, _, _, _, hdeg, hgeq, r0, hr0, huniq⟩ := h
+  have hcard : ∀ i, (inc src dst act i).card = 0 ∨ (inc src dst act i).card = 2 := by
+    intro i
+    have := hdeg i
+    split_ifs at this
+    · exact Or.inr this
+    · exact Or.inl this
+  have hvp : ∀ i, visited src dst act i → passed i := by
+    intro i hv
+    have := hdeg i
+    unfold visited at hv
+    split_ifs at this with hp
+    · exact hp
+    · omega
+  refine ⟨hcard, ?_⟩
+  -- every visited vertex reaches the root
+  have hroot : ∀ a, visited src dst act a → C04.Reach (adjA src dst act) (visited src dst act) a r0 := by
+    intro a ha
+    let C := univ.filter (fun v => C04.Reach (adjA src dst act) (visited src dst act) a v)
+    have haC : a ∈ C := by simp only [C, mem_filter, mem_univ, true_and]; exact Relation.ReflTransGen.refl
+    obtain ⟨v, hvC, hmin⟩ := Finset.exists_min_image C rank ⟨a, haC⟩
+    have hav : C04.Reach (adjA src dst act) (visited src dst act) a v := (mem_filter.mp hvC).2
+    -- v is visited
+    have hvv : visited src dst act v := by
+      rcases Relation.ReflTransGen.cases_tail hav with h | ⟨c, _, hstep⟩
+      · rw [h]; exact ha
+      · exact hstep.2.2
+    -- every active edge at v leads to a vertex of the component, hence of rank >= rank v
+    have hall : geq src dst act rank v = inc src dst act v := by
+      apply Finset.filter_true_of_mem
+      intro e he
+      simp only [inc, mem_filter, mem_univ, true_and] at he
+      set w := C09.other src dst e v with hw
+      have hadj : adjA src dst act v w := adjA_other src dst act e v he.1 he.2
+      have hwv : visited src dst act w := by
+        have hmem : e ∈ inc src dst act w := by
+          simp only [inc, mem_filter, mem_univ, true_and]
+          exact ⟨he.1, other_at src dst e v he.2⟩
+        rcases hcard w with h0 | h2
+        · exact absurd (card_eq_zero.mp h0 ▸ hmem) (notMem_empty e)
+        · exact h2
+      have : w ∈ C := by
+        simp only [C, mem_filter, mem_univ, true_and]
+        exact Relation.ReflTransGen.tail hav ⟨hadj, hvv, hwv⟩
+      exact hmin w this
+    have h2 := hgeq v (hvp v hvv)
+    rw [hall] at h2
+    have h3 : (inc src dst act v).card = 2 := hvv
+    have hvr : isRoot v := by
+      by_contra hnr
+      rw [if_neg hnr] at h2
+      omega
+    rw [← huniq v hvr]
+    exact hav
+  intro a b ha hb
+  exact Relation.ReflTransGen.trans (hroot a ha) (C04.reach_symm _ _ (adjA_symm src dst act) (hroot b hb))
+
+/-- completeness: rank the visited vertices by growth from one of them -/
+theorem onecycle_enc (src dst : Fin m → Fin n) (act : Fin m → Prop) [DecidablePred act] (hn : 0 < n)
+    (h : OneCycle src dst act) : Enc src dst act := by
+  obtain ⟨hcard, hconn⟩ := h
+  have inst : DecidablePred (visited src dst act) := fun i => by unfold visited; exact inferInstance
+  have hdeg : ∀ i, (inc src dst act i).card = if visited src dst act i then 2 else 0 := by
+    intro i
+    by_cases hv : visited src dst act i
+    · rw [if_pos hv]; exact hv
+    · rw [if_neg hv]
+      rcases hcard i with h0 | h2
+      · exact h0
+      · exact absurd h2 hv
+  by_cases hne : ∃ r, visited src dst act r
+  · obtain ⟨r, hr⟩ := hne
+    have hG0 : C04.Good (adjA src dst act) (visited src dst act) r {r} (fun _ => 0) := by
+      refine ⟨mem_singleton_self r, ?_, ?_, ?_⟩
+      · intro x hx; rw [mem_singleton.mp hx]; exact hr
+      · intro x _; simp
+      · intro x hx hxr; exact absurd (mem_singleton.mp hx) hxr
+    obtain ⟨X, rank', hG, hall⟩ := C04.grow (adjA src dst act) (visited src dst act) (adjA_symm src dst act) hconn r hr _ {r}
+      (fun _ => 0) rfl hG0
+    have hXn : X.card ≤ n := by
+      have := card_le_univ X
+      simpa using this
+    refine ⟨visited src dst act, fun v => if v ∈ X then rank' v else 0, fun v => v = r, inferInstance, inferInstance, ?_, hdeg, ?_, ⟨r, rfl, fun r' h' => h'⟩⟩
+    · intro v
+      by_cases hv : v ∈ X
+      · have := hG.2.2.1 v hv
+        simp only [hv, if_true]; omega
+      · simp only [hv, if_false]; exact hn
+    · intro i hi
+      by_cases hir : i = r
+      · rw [if_pos hir]
+        have : (geq src dst act (fun v => if v ∈ X then rank' v else 0) i).card ≤ (inc src dst act i).card :=
+          card_le_card (filter_subset _ _)
+        have h2 : (inc src dst act i).card = 2 := hi
+        omega
+      · rw [if_neg hir]
+        have hiX := hall i hi
+        obtain ⟨y, hy, ⟨e, hae, hends⟩, hlt⟩ := hG.2.2.2 i hiX hir
+        have heI : e ∈ inc src dst act i := by
+          simp only [inc, mem_filter, mem_univ, true_and]
+          refine ⟨hae, ?_⟩
+          rcases hends with ⟨h1, _⟩ | ⟨_, h2⟩
+          · exact Or.inl h1
+          · exact Or.inr h2
+        have hoth : C09.other src dst e i = y := by
+          unfold C09.other
+          rcases hends with ⟨h1, h2⟩ | ⟨h1, h2⟩
+          · rw [if_pos h1]; exact h2
+          · split_ifs with h3
+            · rw [h2]; exact h3.symm.trans h1
+            · exact h1
+        have hnot : e ∉ geq src dst act (fun v => if v ∈ X then rank' v else 0) i := by
+          simp only [geq, mem_filter, not_and, not_le]
+          intro _
+          rw [hoth]
+          simp only [hy, hiX, if_true]
+          exact hlt
+        have hsub : geq src dst act (fun v => if v ∈ X then rank' v else 0) i ⊆ (inc src dst act i).erase e := by
+          intro e' he'
+          refine mem_erase.mpr ⟨fun hh => hnot (hh ▸ he'), (mem_filter.mp he').1⟩
+        have h2 : (inc src dst act i).card = 2 := hi
+        have h3 : ((inc src dst act i).erase e).card = 1 := by
+          rw [card_erase_of_mem heI, h2]
+        exact le_trans (card_le_card hsub) (le_of_eq h3)
+  · -- no active edge anywhere: any vertex may be the root
+    push Not at hne
+    refine ⟨visited src dst act, fun _ => 0, fun v => v = ⟨0, hn⟩, inferInstance, inferInstance, fun _ => hn, hdeg,
+      fun i hi => absurd hi (hne i), ⟨⟨0, hn⟩, rfl, fun r' h' => h'⟩⟩
+
+/-- the constraints posted by `_active_edges_single_cycle` (rank/root encoding) are satisfiable exactly when the
+    active edges are empty or form one simple cycle -/
+theorem enc_iff_onecycle (src dst : Fin m → Fin n) (act : Fin m → Prop) [DecidablePred act] (hn : 0 < n) :
+    Enc src dst act ↔ OneCycle src dst act :=
+  ⟨enc_onecycle src dst act, onecycle_enc src dst act hn⟩
+
+/-- in every solution the `passed` flags are exactly the visited vertices -/
+theorem passed_iff_visited (src dst : Fin m → Fin n) (act : Fin m → Prop) [DecidablePred act]
+    (passed : Fin n → Prop) [DecidablePred passed]
+    (hdeg : ∀ i, (inc src dst act i).card = if passed i then 2 else 0) (i : Fin n) :
+    passed i ↔ visited src dst act i := by
+  unfold visited
+  have := hdeg i
+  split_ifs at this with hp
+  · exact ⟨fun _ => this, fun _ => hp⟩
+  · constructor
+    · intro hp'; exact absurd hp' hp
+    · intro h2; omega
+
+end C06
+
 #print axioms C09.enc_iff_acyclic
 #print axioms C04.enc_iff_connected
 #print axioms C04T.enc_iff_tree
+#print axioms C06.enc_iff_onecycle
+#print axioms C06.passed_iff_visited
